@@ -359,7 +359,7 @@ def C13(ctx):
     cfgU = {"want_paths": True, "want_seq": True, "iter_cap": 2500}
     U1 = core.run_loom(ctx, pool, cfg_of=lambda p: cfgU, tag="u1")
     base = [(p, r) for p, r in zip(pool, U1) if r["end"] == "ok" and 3 <= r["iters"] <= 2000]
-    base = base[: (14 if ctx.tier == "quick" else 60)]
+    base = base[: (10 if ctx.tier == "quick" else 60)]
     progs = [p for p, _ in base]
     U1 = [r for _, r in base]
     U2 = core.run_loom(ctx, progs, cfg_of=lambda p: cfgU, tag="u2")
@@ -373,6 +373,8 @@ def C13(ctx):
     for pi, (p, u) in enumerate(zip(progs, U1)):
         N = u["iters"]
         ks = list(range(1, N + 2)) if N <= 12 else sorted(set([1, 2, 3, N - 1, N, N + 1] + [rng.randint(1, N) for _ in range(8 if ctx.tier == "quick" else 30)]))
+        # the longest path of the uninterrupted run = the smallest max_branches with which it passes
+        need = max(len(pathcheck.canon_path(pth)["br"]) for (ph, it, pth) in u["hook_events"] if ph == "end")
         for k in ks:
             for c in ([1, 3] if ctx.tier == "quick" else [1, 2, 3, 7]):
                 f = os.path.join(ck, f"p{pi}_k{k}_c{c}.json")
@@ -381,10 +383,20 @@ def C13(ctx):
                 jobsA.append({"prog": p, "cfg": {"want_paths": True, "want_seq": True, "checkpoint_file": f,
                                                   "checkpoint_interval": c, "max_permutations": k}})
                 meta.append((pi, k, c, f))
+        # ... and the same with exactly that budget: a resumed run has the same branch budget as the uninterrupted one
+        for k in ks[:: max(1, len(ks) // 6)]:
+            f = os.path.join(ck, f"p{pi}_k{k}_tight.json")
+            if os.path.exists(f):
+                os.remove(f)
+            jobsA.append({"prog": p, "cfg": {"want_paths": True, "want_seq": True, "checkpoint_file": f, "checkpoint_interval": 1,
+                                              "max_permutations": k, "max_branches": need}})
+            meta.append((pi, k, 1, f))
     import loomrun
     RA = loomrun.run_items(os.path.join(ctx.work, "runA"), jobsA, jobs=ctx.jobs, tag="runA")
     jobsB = [{"prog": j["prog"], "cfg": {"want_paths": True, "want_seq": True, "checkpoint_file": m[3],
-                                         "checkpoint_interval": 100000}} for j, m in zip(jobsA, meta)]
+                                         "checkpoint_interval": 100000,
+                                         **({"max_branches": j["cfg"]["max_branches"]} if "max_branches" in j["cfg"] else {})}}
+             for j, m in zip(jobsA, meta)]
     RB = loomrun.run_items(os.path.join(ctx.work, "runB"), jobsB, jobs=ctx.jobs, tag="runB")
     runs = []
     pairs = 0
